@@ -66,7 +66,9 @@ class C01(runner.Prop):
 
     def strategy(self, tier):
         ml = 12 if tier == 'quick' else 24
-        general = st.fixed_dictionaries({'t': gen.tree_descs(ml), 'cfg': gen.configs()})
+        general = st.fixed_dictionaries({'t': st.one_of(gen.tree_descs(ml), gen.tree_descs(ml), gen.tree_descs(ml),
+                                                        gen.with_childless_twins(gen.tree_descs(max(3, ml // 2)))),
+                                         'cfg': gen.configs()})
         # stratified: dict-heavy trees with histories (the classes the property text singles out)
         dicty = st.fixed_dictionaries({
             't': gen.tree_descs(ml, kinds=('dict', 'od', 'dd', 'deque', 'list', 'cg', 'cn')),
